@@ -90,3 +90,26 @@ Proof.
   - destruct (A1 v Hv) as [n ->]. apply refs_of_In. apply Hset. apply refs_of_In. exact Hv.
   - destruct (A2 v Hv) as [n ->]. apply refs_of_In. apply Hset. apply refs_of_In. exact Hv.
 Qed.
+
+(* value unions: a key exists only when no variant is open, and then it determines the listed wire names *)
+Lemma vu_open_false u : vu_open u = false -> forall v, In v u -> exists x vs, v = VValues (x :: vs).
+Proof.
+  unfold vu_open. intros H v Hv.
+  assert (E : existsb (fun v => match v with VOpen _ => true | VValues vs => match vs with [] => true | _ => false end end) u = false) by exact H.
+  destruct v as [[|x vs]|c].
+  - exfalso. assert (T : existsb (fun v => match v with VOpen _ => true | VValues vs => match vs with [] => true | _ => false end end) u = true).
+    { apply existsb_exists. eexists; split; [exact Hv | reflexivity]. } congruence.
+  - eauto.
+  - exfalso. assert (T : existsb (fun v => match v with VOpen _ => true | VValues vs => match vs with [] => true | _ => false end end) u = true).
+    { apply existsb_exists. eexists; split; [exact Hv | reflexivity]. } congruence.
+Qed.
+
+Theorem value_union_key_sound u1 u2 k : value_union_key u1 = Some k -> value_union_key u2 = Some k ->
+  (forall v, In v u1 \/ In v u2 -> exists x vs, v = VValues (x :: vs))
+  /\ (forall s, In s (wire_names (vu_values u1)) <-> In s (wire_names (vu_values u2))).
+Proof.
+  unfold value_union_key. destruct (vu_open u1) eqn:O1; [discriminate|]. destruct (vu_open u2) eqn:O2; [discriminate|].
+  intros H1 H2. split.
+  - intros v [Hv|Hv]; [exact (vu_open_false u1 O1 v Hv) | exact (vu_open_false u2 O2 v Hv)].
+  - apply enum_key_sound. congruence.
+Qed.
